@@ -1,7 +1,7 @@
 """Savage 2 (C07): how the generic property runners drive it.  The protocol does not retry (outside C10's quantifier)."""
 
 FAMILY = dict(
-    name="savage2", nargs=2, gen="savage2", retries=1, port=0, decode_property="C07", entry="savage2",
+    send_units=1, name="savage2", nargs=2, gen="savage2", retries=1, port=0, decode_property="C07", entry="savage2",
     describe=("Savage 2 info reply: 12 skipped bytes of any content, 7 NUL-terminated strings (empty to long, 1-4 byte "
               "UTF-8), 4 bytes over the full range, 0-17 ignored trailing bytes, port given / defaulted (savage2_dp)"),
 )
